@@ -469,6 +469,11 @@ def _work(args):
                                 tx2.sequence = max(n + d, 0) if not flip else ((n + d) | (1 << 22) if not n & (1 << 22) else (n + d) & ~(1 << 22))
                             st, cons, rok, rlog, detail = eval_case(F, text, ctx, w, tx2)
                             recs.append(("lock", (w, tx2.lock_time, tx2.sequence), st, cons, rok, rlog, detail))
+                    if kind == "After":
+                        # BIP 65: OP_CHECKLOCKTIMEVERIFY fails on an input whose nSequence is final, whatever nLockTime is
+                        tx2 = X.Tx(max(tx.lock_time, n), 0xffffffff)
+                        st, cons, rok, rlog, detail = eval_case(F, text, ctx, w, tx2)
+                        recs.append(("lock", (w, tx2.lock_time, tx2.sequence), st, cons, rok, rlog, detail))
                     if kind == "Older":
                         tx2 = X.Tx(tx.lock_time, n | (1 << 31))
                         st, cons, rok, rlog, detail = eval_case(F, text, ctx, w, tx2)
@@ -1250,6 +1255,52 @@ def check_glue(chk, F):
     chk.floor(R, "cases", n, 11)
 
 
+# ---- R13.9 which script a stack element is --------------------------------------------------------------------------------------------
+
+def check_script_from_elem(chk, F):
+    from ..builtins import deref
+    R = "R13.9"
+    chk.rule(R, "the redeem / witness / leaf script the interpreter executes is decoded from the very bytes of the stack "
+                "element that the output commits to: a pushed element from its bytes, the one-byte element 0x01 and the empty "
+                "element (which the stack classifies as Satisfied / Dissatisfied) from the bytes 01 and nothing - never as the "
+                "scripts OP_1 / OP_0, whose hashes are other commitments")
+    try:
+        fn = F.fn("script_from_stack_elem", file="interpreter/inner.rs")
+    except KeyError as e:
+        chk.fail(R, "anchor", "missing anchor %s" % e, kind="unanalysable")
+        return
+    chk.saw(fn)
+    ELEM = "interpreter::stack::Element"
+    n = 0
+    for ctx in ("Legacy", "Segwitv0", "Tap", "BareCtx"):
+        seen = []
+
+        def dec(m_, a, c):
+            v = deref(a[0])
+            seen.append(list(v.items) if isinstance(v, PyVec) else v)
+            return ok(Term("decoded", repr(seen[-1])))
+        hooks = {"bitcoin::Script::from_bytes": lambda m_, a, c: deref(a[0])}
+        for p_ in F.fns:
+            if p_.endswith("::decode_consensus"):
+                hooks[p_] = dec
+        m = Machine(F, strict=True, hooks=hooks)
+        ctxp = "miniscript::context::" + ctx
+        for label, elem, want in (("push", Adt(ELEM, "Push", {"0": PyVec([0x51, 0xac])}), [0x51, 0xac]),
+                                  ("0x01", Adt(ELEM, "Satisfied", {}), [1]), ("empty", Adt(ELEM, "Dissatisfied", {}), [])):
+            del seen[:]
+            try:
+                r = m.call_callee({"def": fn, "resolved": fn, "name": "script_from_stack_elem", "targs": [ctxp]}, [elem])
+                n += 1
+                good = seen == [want] and isinstance(r, Adt) and r.variant == "Ok" and "decoded" in repr(r)
+                chk.obligation(R, good, "%s|%s" % (ctx, label), "the element %s is turned into %s after decoding %r; expected the "
+                               "decoding of the bytes %r" % (label, repr(r)[:100], seen, want), F.fns[fn]["span"])
+            except Unsupported as e:
+                chk.fail(R, "unanalysable:%s|%s" % (ctx, label), "unanalysable: %s" % e, where=e.where, kind="unanalysable")
+            except Panic as e:
+                chk.fail(R, "%s|%s" % (ctx, label), "panic: %s" % e, F.fns[fn]["span"])
+    chk.floor(R, "cases", n, 12)
+
+
 def run(chk):
     F = chk.facts()
     chk.explanation = __doc__
@@ -1268,3 +1319,4 @@ def run(chk):
         chk.guard("R13.7", "to-no-checks", check_to_no_checks, chk, F)
     if not ONLY or "8" in ONLY:
         chk.guard("R13.8", "glue", check_glue, chk, F)
+        chk.guard("R13.9", "script-from-element", check_script_from_elem, chk, F)
